@@ -29,6 +29,11 @@ type subscriber struct {
 	// above are the SNAPSHOT of the last successful Set call - the contract the datapath must enforce.
 	obj        *qos.SubscriberQoS
 	lastByName bool // the last successful Set went through SetSubscriberPolicy
+	// named delivery: planName "" = a name unique to the numbers (defined on the spot); otherwise a name
+	// from a small pool shared by the subscribers, (re)defined as planDefine says before the Set call
+	planName      string
+	planDefine    int
+	lastRedefined bool // the last by-name Set resolved a name whose definition had changed since it was last used
 }
 
 func (s *subscriber) rate(dir int) uint64 {
@@ -78,14 +83,53 @@ const (
 	submitByName            // SetSubscriberPolicy(ip, named radius.QoSPolicy with the snapshot values)
 )
 
+const (
+	defineNone         = iota // use the name as currently defined
+	defineAdd                 // AddPolicy(name, numbers) first (replaces)
+	defineRemoveAdd           // RemovePolicy(name), AddPolicy(name, numbers) first
+	defineBulkDefaults        // LoadDefaultPolicies() first
+)
+
+type planNumbers struct {
+	Down, Up uint64
+	Burst    uint32
+	Prio     uint8
+}
+
 // submit performs one Set call for the values in s.Down/Up/Burst/Prio.
 func (p *plane) submit(s *subscriber, how int) error {
 	switch how {
 	case submitByName:
-		name := fmt.Sprintf("verif-%d-%d-%d-%d", s.Down, s.Up, s.Burst, s.Prio)
-		if err := p.pm.AddPolicy(&radius.QoSPolicy{Name: name, DownloadBPS: s.Down, UploadBPS: s.Up, BurstSize: s.Burst, Priority: s.Prio}); err != nil {
-			return err
+		name, define := s.planName, s.planDefine
+		if name == "" {
+			name, define = fmt.Sprintf("verif-%d-%d-%d-%d", s.Down, s.Up, s.Burst, s.Prio), defineAdd
 		}
+		pol := &radius.QoSPolicy{Name: name, DownloadBPS: s.Down, UploadBPS: s.Up, BurstSize: s.Burst, Priority: s.Prio}
+		switch define {
+		case defineRemoveAdd:
+			p.pm.RemovePolicy(name)
+			fallthrough
+		case defineAdd: // AddPolicy REPLACES an existing definition of the name
+			if err := p.pm.AddPolicy(pol); err != nil {
+				return err
+			}
+			p.defs[name] = planNumbers{s.Down, s.Up, s.Burst, s.Prio}
+		case defineBulkDefaults: // a reload of the shipped policies overwrites custom definitions of their names
+			p.pm.LoadDefaultPolicies()
+			for _, d := range radius.DefaultPolicies() {
+				p.defs[d.Name] = planNumbers{d.DownloadBPS, d.UploadBPS, d.BurstSize, d.Priority}
+			}
+		}
+		cur, ok := p.defs[name]
+		if !ok {
+			return fmt.Errorf("harness: policy %q is not defined", name)
+		}
+		// the contract is the definition current at the time of this SetSubscriberPolicy call
+		s.Down, s.Up, s.Burst, s.Prio = cur.Down, cur.Up, cur.Burst, cur.Prio
+		s.planDefine = defineNone
+		prev, used := p.usedDef[name]
+		s.lastRedefined = used && prev != cur
+		p.usedDef[name] = cur
 		s.lastByName = true
 		return p.mgr.SetSubscriberPolicy(ipOf(s.IP), name)
 	case submitSameObject:
@@ -96,7 +140,7 @@ func (p *plane) submit(s *subscriber, how int) error {
 	default:
 		s.obj = &qos.SubscriberQoS{IP: ipOf(s.IP), DownloadBPS: s.Down, UploadBPS: s.Up, BurstBytes: s.Burst, Priority: s.Prio, PolicyName: "verif"}
 	}
-	s.lastByName = false
+	s.lastByName, s.lastRedefined = false, false
 	return p.mgr.SetSubscriberQoS(s.obj)
 }
 
@@ -163,8 +207,9 @@ const (
 	evInPlace     = "in-place-update"    // the object handed over before, edited by the caller and submitted again
 	evIdentical   = "identical-resubmit" // the same numbers again (same object, new object, or the same named policy)
 	evAfterRemove = "set-after-remove"
-	evAfterStart  = "after-restart" // data plane restarted (new, empty maps), policies re-applied by the caller
-	evBystander   = "bystander"     // another subscriber's call / a caller-side edit that was not submitted
+	evAfterStart  = "after-restart"    // data plane restarted (new, empty maps), policies re-applied by the caller
+	evRedefined   = "policy-redefined" // SetSubscriberPolicy with a name whose definition changed since it was last used
+	evBystander   = "bystander"        // another subscriber's call / a caller-side edit that was not submitted
 )
 
 // missingSig: a successful Set left no bucket at the packet address.  The first Set keeps the plain
